@@ -1587,6 +1587,23 @@ func (e *Env) call(ex *ast.CallExpr) (SymVal, error) {
 			}
 		}
 		return SymVal{}, fmt.Errorf("captured: %s is not a captured variable", id.Name)
+	case "typetag":
+		// typetag(T): the dynamic-type tag interfaces holding a T carry
+		t, err := e.typeExpr(ex.Args[0])
+		if err != nil {
+			return SymVal{}, err
+		}
+		return mkMath(fmt.Sprint(c.g.tagOf(t))), nil
+	case "tagof":
+		// tagof(x): the dynamic-type tag of interface value x
+		x, err := arg(0)
+		if err != nil {
+			return SymVal{}, err
+		}
+		if x.K != KIface {
+			return SymVal{}, fmt.Errorf("tagof needs an interface value")
+		}
+		return mkMath(app("itag", x.S)), nil
 	case "inpkg":
 		// inpkg(name): the function under analysis belongs to the package with that (last path element) name
 		id, ok := ex.Args[0].(*ast.Ident)
